@@ -55,6 +55,14 @@ RECURSIVE FlatMap(_, _)
 FlatMap(q, cfg) == IF q = <<>> THEN <<>> ELSE Expand(Head(q), cfg) \o FlatMap(Tail(q), cfg)
 Filtered(srcs, cfg) == SelectSeq(Concat(srcs), LAMBDA r : Match(cfg.sel, r))
 Pipeline(srcs, cfg) == FlatMap(Slice(Filtered(srcs, cfg), cfg.skip, cfg.cnt), cfg)
+\* --list: instead of records, the unique record descriptors of the sliced (and projected) records in order of first
+\* appearance, then the number of records processed.  A descriptor is its type name and its ordered field list.
+TypeName(d) == IF d = "B" THEN "t/b" ELSE "t/a"
+Sliced(srcs, cfg) == Slice(Filtered(srcs, cfg), cfg.skip, cfg.cnt)
+DescAfter(r, cfg) == [name |-> TypeName(r.d), fields |-> Project(FieldsOf(r.d), cfg.fields, cfg.excl)]
+RECURSIVE Uniq(_, _)
+Uniq(q, seen) == IF q = <<>> THEN <<>> ELSE IF Head(q) \in seen THEN Uniq(Tail(q), seen) ELSE <<Head(q)>> \o Uniq(Tail(q), seen \cup {Head(q)})
+ListOut(srcs, cfg) == LET q == Sliced(srcs, cfg) IN Uniq([i \in DOMAIN q |-> DescAfter(q[i], cfg)], {})
 \* --split: greedy parts; as built a trailing (possibly empty) part always exists
 RECURSIVE Chunk(_, _)
 Chunk(q, k) == IF k = 0 THEN <<q>> ELSE IF Len(q) < k THEN <<q>>
